@@ -21,6 +21,9 @@ struct Th {
     uint64_t sleep_seq = 0;                // sequence number when the current sleep began
     bool ever_ran = false;
 };
+static bool g_defer = false;      // config suffix 'd': the sleeps go through the public thread_usleep_defer(): the deferred function must run exactly once, after the sleeper left its stack and before it is resumed
+struct DeferRec { int runs = 0; bool in_sleeper = false; photon::thread* sleeper = nullptr; };
+static void defer_fn(void* a) { auto d = (DeferRec*)a; d->runs++; if (photon::CURRENT == d->sleeper) d->in_sleeper = true; }
 static bool g_waitq = false;      // config suffix 'w': the sleeps go through a wait queue (condition_variable::wait_no_lock) instead of thread_usleep
 static std::vector<Th> T; static int K; static std::string obs; static int slots; static uint64_t seqno;
 
@@ -61,7 +64,15 @@ static void run(int me) {
         T[me].state = 2; T[me].sleep_start = sv::vnow; T[me].sleep_len = len; T[me].sleep_seq = ++seqno;
         errno = 0;
         int r;
-        if (!g_waitq) r = thread_usleep(len);
+        if (g_defer) {
+            DeferRec d; d.sleeper = photon::CURRENT;
+            r = photon::thread_usleep_defer(len == ~0ull ? Timeout() : Timeout(len), &defer_fn, &d);
+            int saved = errno;
+            if (d.runs != 1) pmc_violation("deferred-function-runs", "thread_usleep_defer(%llu): the deferred function ran %d times before the sleeper resumed", (unsigned long long)len, d.runs);
+            if (d.in_sleeper) pmc_violation("deferred-function-in-sleeper", "the deferred function ran in the sleeping thread's own context");
+            errno = saved;
+        }
+        else if (!g_waitq) r = thread_usleep(len);
         else {      // same contract through the waitq-based sleep: "full duration" shows as -1/ETIMEDOUT there
             photon::condition_variable cv;
             r = cv.wait_no_lock(len == ~0ull ? Timeout() : Timeout(len));
@@ -107,7 +118,7 @@ static void on_deadlock() {
 
 void pmc_run(const char* config) {
     if (sscanf(config, "k%ds%d", &K, &slots) != 2) pmc_broken("bad config");
-    g_waitq = config[strlen(config) - 1] == 'w';
+    g_waitq = config[strlen(config) - 1] == 'w'; g_defer = config[strlen(config) - 1] == 'd';
     T.clear(); T.resize(K); obs.clear(); seqno = 0;
     pmc_window(0);
     sv::init();
@@ -129,6 +140,8 @@ static const PmcConfig CFG[] = {
     {"k3s1", 3, {0,0}, {0,0}, {0,0}, {0,0}, "3 threads x 1 op"},
     {"k2s2w", 3, {0,0}, {0,0}, {0,0}, {0,0}, "the same programs with every sleep done through a wait queue (timed condition_variable wait)"},
     {"k3s1w", 3, {0,0}, {0,0}, {0,0}, {0,0}, ""},
+    {"k2s2d", 3, {0,0}, {0,0}, {0,0}, {0,0}, "the same programs with every sleep done through the public thread_usleep_defer()"},
+    {"k3s1d", 3, {0,0}, {0,0}, {0,0}, {0,0}, ""},
     {"k2s3", 2, {0,0}, {0,0}, {0,0}, {0,0}, "2 threads x 3 ops: 10^6 programs"},
     {"k3s2", 2, {0,0}, {0,0}, {0,0}, {0,0}, "3 threads x 2 ops: 10^6 programs"},
     {"k2s3w", 2, {0,0}, {0,0}, {0,0}, {0,0}, ""},
